@@ -9,7 +9,7 @@ CONSTANTS
   Mode = "hist"
   MaxLen = 3
   Chains = 0
-  Replays <- AllReplays
+  Replays <- NoReplays
 INIT Init
 NEXT Next
-INVARIANTS TypeOK OnlyAuthentic NoVerifierRejects RealNotBypassed RejectKeepsState Complete Monotone CacheIsLastAccepted ReplayRejected ReplayAsFresh ReplayWellFormed KnownIsPresented ReplaySourced EmitHist
+INVARIANTS TypeOK OnlyAuthentic NoVerifierRejects RealNotBypassed RejectKeepsState Complete Monotone CacheIsLastAccepted KnownIsPresented EmitHist
